@@ -189,6 +189,7 @@ fn strat(t: Tier) -> proptest::strategy::BoxedStrategy<ValidCase> {
 
 pub fn def() -> PropertyDef {
     PropertyDef {
+        fuzz_targets: &[],
         id: "C03",
         level: "exploration",
         rule: "timelines in ticks (+ sub-tick jitter up to 0.49 tick) or computed as i/fps like a caller (incl. 1001-rates), VFR gaps 1 tick..2^32-1, \
